@@ -698,10 +698,39 @@ func (env *Env) evalCall(e *SX) Term {
 			return app(sortBool, "select", m, k)
 		}
 		sfail("in: not a map or set: %s", m.Sort.Name)
+	case "get":
+		// get(m, k): Go's m[k] (the zero value when the key is absent)
+		m, k := ev(0), ev(1)
+		if m.Sort.Kind != KMap {
+			sfail("get: not a map")
+		}
+		var vt types.Type
+		if m.Go != nil {
+			if mt, ok := types.Unalias(m.Go).Underlying().(*types.Map); ok {
+				vt = mt.Elem()
+			}
+		}
+		return tIte(c.mapHas(m, k), c.mapVal(m, k), c.zero(m.Sort.Elem, vt))
 	case "dom":
 		return c.mapDom(ev(0))
 	case "card":
 		return c.mapCard(ev(0))
+	case "astype":
+		// astype(x, "T"): the concrete value of type T held by the interface value x
+		xv := ev(0)
+		if args[1].Op != "str" {
+			sfail("astype expects a type in a string literal")
+		}
+		ts, gt := u.sortOfTypeStr(args[1].Name)
+		_, unbox, _ := c.boxFns(ts, xv.Sort)
+		r := app(ts, unbox, xv)
+		r.Go = gt
+		return r
+	case "istype":
+		xv := ev(0)
+		ts, _ := u.sortOfTypeStr(args[1].Name)
+		_, _, is := c.boxFns(ts, xv.Sort)
+		return app(sortBool, is, xv)
 	case "same":
 		// native (term-level) equality, also for slices
 		return tEq(ev(0), ev(1))
@@ -914,6 +943,19 @@ func (u *Unit) resolveType(e ast.Expr) types.Type {
 		}
 	case *ast.SelectorExpr:
 		if id, ok := t.X.(*ast.Ident); ok {
+			// file-level import aliases (import consul "github.com/hashicorp/consul/api")
+			for _, f := range u.pkg.Syntax {
+				for _, is := range f.Imports {
+					if is.Name != nil && is.Name.Name == id.Name {
+						path := strings.Trim(is.Path.Value, "\"")
+						if ip := u.world.pkgs[path]; ip != nil && ip.Types != nil {
+							if tn, ok := ip.Types.Scope().Lookup(t.Sel.Name).(*types.TypeName); ok {
+								return tn.Type()
+							}
+						}
+					}
+				}
+			}
 			for _, imp := range u.pkg.Types.Imports() {
 				if imp.Name() == id.Name {
 					if tn, ok := imp.Scope().Lookup(t.Sel.Name).(*types.TypeName); ok {
